@@ -805,6 +805,44 @@ func c16Misc(ctx *run.Ctx) {
 			}
 			cc.Count("pipeline_runs", 1)
 		}
+		// Apply calls its function once per element, equal neighbours included
+		{
+			src := []float64{1, 1, 2, 2, 2, 3, 1}
+			total, calls := 0.0, 0
+			got := helper.ChanToSlice(helper.Apply(helper.SliceToChan(src), func(x float64) float64 { calls++; total += x; return total }))
+			if want := []float64{1, 2, 4, 6, 8, 11, 12}; !eqSlice(got, want) || calls != len(src) {
+				cc.Viol("", fmt.Sprintf("Apply(running total) over %v = %v with %d calls, want %v with %d calls", src, got, calls, want, len(src)), nil)
+				return
+			}
+			inv := helper.ChanToSlice(helper.Pow(helper.SliceToChan([]float64{0, math.Copysign(0, -1), 2}), -1))
+			if len(inv) != 3 || !math.IsInf(inv[0], 1) || !math.IsInf(inv[1], -1) || inv[2] != 0.5 {
+				cc.Viol("", fmt.Sprintf("Pow([0, -0, 2], -1) = %v, want [+Inf -Inf 0.5]", inv), nil)
+				return
+			}
+			cc.Count("pipeline_runs", 2)
+		}
+		// Skip, Shift and First hand the capacity of their input on to their output
+		// (Map, Filter and Apply do not, by design): with a buffered source a consumer may read one copy of a
+		// Duplicate to its end before it starts on the other one. A stage that
+		// handed on an unbuffered channel would deadlock here.
+		{
+			src := []int{1, 2, 3, 4, 5, 6}
+			stages := map[string]func(<-chan int) <-chan int{
+				"Skip(2)":     func(c <-chan int) <-chan int { return helper.Skip(c, 2) },
+				"Shift(1, 0)": func(c <-chan int) <-chan int { return helper.Shift(c, 1, 0) },
+				"First(9)":    func(c <-chan int) <-chan int { return helper.First(c, 9) },
+			}
+			for name, st := range stages {
+				cs := helper.Duplicate(st(helper.Buffered(helper.SliceToChan(src), 8)), 2)
+				a := helper.ChanToSlice(cs[0])
+				b := helper.ChanToSlice(cs[1])
+				if !eqSlice(a, b) {
+					cc.Viol("", fmt.Sprintf("%s behind a buffered source, two copies read one after the other: %v and %v", name, a, b), nil)
+					return
+				}
+				cc.Count("pipeline_runs", 1)
+			}
+		}
 		// Head returns at once: its caller may well start the producer afterwards
 		// (a Head that waited for its values inside the call would deadlock here)
 		{
